@@ -169,7 +169,10 @@ def one_scenario(seed, with_fix_only=False):
             # a selection file: some rules with 'all' or line lists, or a dictionary that lacks the keys
             sel = {rid: r.choice([["all"], [1, 2], []]) for rid in r.sample(ids, r.randint(0, 6))}
             dfo = r.choice([{"fix": {"rule": sel}}, {"fix": {"rule": sel}}, {"fix": {}}, {}])
-        oRules.fix(n, copy.copy(skip), dfo)
+        passed = copy.copy(skip)  # one list object for fix and for the check that follows, as apply_rules does
+        oRules.fix(n, passed, dfo)
+        if passed != skip:
+            out.append(("fix", "fix_phase=%d: rule_list.fix changed the skip list it was given: %r -> %r (the caller uses it again for the report)" % (n, skip, passed)))
         sk = skip if skip is not None else []
         exp = before + vocab["fix_phases"](list(range(1, n + 1)), oRules.rules, sk)
         if g["oplog"] != exp:
